@@ -409,7 +409,7 @@ def execute(case, stop_at_first=True, collect=True, known=None):
     def check_state(model, ref_out, label, rt=RT, at=AT):
         live = obs.read_outputs(model.prob)
         nf = obs.all_finite(live)
-        if nf:
+        if nf and np.all(np.isfinite(ref_out.get(nf, np.array([np.nan])))):
             violation("nonfinite", _where(model.prob, nf), float("inf"), 0.0, {"after": label})
             return False
         bad, worst = _cmp_outputs(live, ref_out, rt, at)
@@ -588,6 +588,15 @@ def _exec_schedule(case, res, log, probe, violation, check_state, check_round_tr
         check_state(model, ref_outputs(spec, p2), "then_point", rt_, at_)
 
 
+def _state_nonfinite(model):
+    """Name of a non-finite output inside a coupled group (the state proper), else None. Functionals outside it are
+    legitimately 0/0 at a wind-off point."""
+    for n, v in model.prob.model._outputs._abs_item_iter(flat=True):
+        if any(n.startswith(p + ".") for p in model.coupled) and not np.all(np.isfinite(v)):
+            return n
+    return None
+
+
 def _plain_nlbgs_converges(spec, point, atol):
     m = zoo.build(spec)
     apply_solvers(m, "nlbgs", "direct", atol)
@@ -726,7 +735,7 @@ def _exec_api(case, res, log, probe, violation, check_state, check_round_trip, r
             if inj.fired:
                 res["fault_fired"]["abort"] = res["fault_fired"].get("abort", 0) + 1
             log.add("abort", at_, st)
-            nf = obs.all_finite(obs.read_outputs(model.prob))
+            nf = _state_nonfinite(model)
             if nf:
                 # a spoiled guess followed by an aborted pass (the solver swallows the child's AnalysisError and
                 # skips the rest of that subsystem) can leave NaN behind: the aborted evaluation's result is
@@ -757,7 +766,7 @@ def _exec_api(case, res, log, probe, violation, check_state, check_round_trip, r
                           {"op_index": opi, "nl": nl, "lin": lin, "detail": res.get("last_exception", {}).get("where")})
                 return
             log.add("starve", op["maxiter"], st)
-            if obs.all_finite(obs.read_outputs(model.prob)):
+            if _state_nonfinite(model):
                 probe("abort_left_nonfinite_state_problem_rebuilt")
                 model = build(nl, lin)
                 model.set_point(points[cur])
@@ -813,7 +822,7 @@ def _exec_multipoint(case, res, log, probe, violation, check_state, check_round_
             if inj.fired:
                 res["fault_fired"]["abort"] = res["fault_fired"].get("abort", 0) + 1
                 probe("abort_during_multipoint_edit")
-            if obs.all_finite(obs.read_outputs(model.prob)):
+            if _state_nonfinite(model):
                 raise HarnessError("NaN after abort in multipoint edit")
         st = _run(model, res, "edit")
         log.add("edit", i, e["var"], e["factor"], st)
@@ -923,6 +932,8 @@ def _exec_stiffness(case, res, log, probe, violation, check_state, check_round_t
         probe("stiffness_pair_checked")
         if not d1 <= d0 / 10.0:
             violation("stiffness", "disp does not shrink >=10x per 100x stiffness", d1, d0, {"mults": [m0, m1_]})
+        if zoo.is_wind_off(point):
+            continue  # CL is 0/0 without dynamic pressure; the displacement limit above is the whole statement
         e0, e1 = abs(c0 - CLr), abs(c1 - CLr)
         # "tends to" is a statement about the limit: CL - CL_rigid = a/m + b/m^2 + ..., and at the baseline
         # stiffness (deflections of metres) the terms can nearly cancel (seen on the wingbox model: 1.5e-4 at m=1,
@@ -930,7 +941,7 @@ def _exec_stiffness(case, res, log, probe, violation, check_state, check_round_t
         if i >= 1 and e0 > 1e-9 and not e1 <= e0 / 10.0 + 1e-9:
             violation("stiffness", "CL does not tend to the rigid CL", e1, e0, {"mults": [m0, m1_], "CL_rigid": CLr})
     e_first, e_last = abs(vals[0][2] - CLr), abs(vals[-1][2] - CLr)
-    if not e_last <= max(1e-3 * e_first, 1e-7 * abs(CLr)) + 1e-9:
+    if not zoo.is_wind_off(point) and not e_last <= max(1e-3 * e_first, 1e-7 * abs(CLr)) + 1e-9:
         violation("stiffness", "CL does not tend to the rigid CL", e_last, e_first, {"mults": [vals[0][0], vals[-1][0]], "CL_rigid": CLr})
     res["schedule_hash"] = core.digest([spec, case["point"]])
 
